@@ -221,7 +221,7 @@ class Decoder(Part):
         return [{"first": c} for c in self.alpha()] + [{"mutate": i} for i in range(20)] + [{"misc": True}]
 
     def alpha(self):
-        return ["Q", "z", "B", "x", "7", "j", "i", "T", "!", " ", "\n", "$"]
+        return ["Q", "z", "B", "x", "7", "j", "i", "T", "!", " ", "\n", "$", "_", "é"]
 
     def run(self, case):
         res = Res()
@@ -245,7 +245,7 @@ class Decoder(Part):
                 if pos < len(c):
                     s = c[:pos] + c[pos + 1:]
                     judge_decode(res, js, s, {"s": s}, "deleted")
-                    for sub in ("Q", "x", "!", " ", "\n", "$", "é"):
+                    for sub in ("Q", "x", "!", " ", "\n", "$", "é", "_", "٣", "Ａ"):
                         s = c[:pos] + sub + c[pos + 1:]
                         judge_decode(res, js, s, {"s": s}, "substituted")
                 s = c[:pos] + "\n" + c[pos:]
